@@ -114,7 +114,7 @@ fn all_ops() -> Vec<Op> {
 
 // ---------------- patches
 fn md5(d: &[u8]) -> [u8; 16] { use md5::{Digest, Md5}; let mut h = Md5::new(); h.update(d); h.finalize().into() }
-fn rle_encode(d: &[u8]) -> Vec<u8> {
+pub fn rle_encode(d: &[u8]) -> Vec<u8> {
     let mut out = (d.len() as u32).to_le_bytes().to_vec();
     let mut i = 0;
     while i < d.len() {
@@ -123,7 +123,7 @@ fn rle_encode(d: &[u8]) -> Vec<u8> {
     }
     out
 }
-fn patch_bytes(kind: &str, base: &[u8], new: &[u8], payload: &[u8], data_size: u32) -> Vec<u8> {
+pub fn patch_bytes(kind: &str, base: &[u8], new: &[u8], payload: &[u8], data_size: u32) -> Vec<u8> {
     let mut p = vec![];
     p.extend_from_slice(&0x48435450u32.to_le_bytes()); p.extend_from_slice(&data_size.to_le_bytes());
     p.extend_from_slice(&(base.len() as u32).to_le_bytes()); p.extend_from_slice(&(new.len() as u32).to_le_bytes());
@@ -135,7 +135,7 @@ fn patch_bytes(kind: &str, base: &[u8], new: &[u8], payload: &[u8], data_size: u
     p
 }
 /// small bsdiff-style encoder: split the new file into segments, alternately "add" (diff against old) and "extra"
-fn bsd0_block(rng: &mut Rng, base: &[u8], new: &[u8]) -> Vec<u8> {
+pub fn bsd0_block(rng: &mut Rng, base: &[u8], new: &[u8]) -> Vec<u8> {
     let mut ctrl = vec![]; let mut data = vec![]; let mut extra = vec![];
     let mut npos = 0usize; let mut opos = 0usize;
     while npos < new.len() {
